@@ -4,6 +4,7 @@ package c10
 import (
 	"errors"
 	"fmt"
+	"io"
 	"net/http"
 	"net/http/httptest"
 	"strings"
@@ -216,7 +217,9 @@ func buildForwardRouter() *rux.Router {
 		mark, _ := c.Get("mark")
 		c.WriteString(fmt.Sprintf("outer:%s/%s/%v/%s", before, c.Param("id"), mark, rec.Body.String()))
 	})
-	r.GET("/plain/{id}", func(c *rux.Context) { c.WriteString(fmt.Sprintf("plain:%s data=%d errors=%d", c.Param("id"), len(c.Data()), len(c.Errors))) })
+	r.GET("/plain/{id}", func(c *rux.Context) {
+		c.WriteString(fmt.Sprintf("plain:%s data=%d errors=%d", c.Param("id"), len(c.Data()), len(c.Errors)))
+	})
 	return r
 }
 
@@ -319,3 +322,56 @@ func propHandlerFuncHistory(t *rapid.T) {
 }
 
 func TestPropHandlerFuncHistory(t *testing.T) { rapid.Check(t, propHandlerFuncHistory) }
+
+// propRenderHistory: views rendered through Router.Renderer.  A template that fails half-way (it has written part of
+// its page when it returns the error) is an earlier request like any other: the next request's page is the page it
+// gets as the first request on a fresh, identical router.
+type halfRenderer struct{}
+
+func (halfRenderer) Render(w io.Writer, name string, data any, ctx *rux.Context) error {
+	_, _ = io.WriteString(w, "<head>"+name+"</head>")
+	if strings.HasPrefix(name, "bad") {
+		return errors.New("template " + name + " is broken after its head")
+	}
+	_, _ = io.WriteString(w, "<body>"+fmt.Sprint(data)+"</body>")
+	return nil
+}
+
+func buildRenderRouter() *rux.Router {
+	r := rux.New()
+	r.Renderer = halfRenderer{}
+	r.GET("/view/{name}", func(c *rux.Context) {
+		if err := c.Render(200, c.Param("name"), c.Query("d")); err != nil {
+			c.Text(500, "render failed: "+err.Error())
+		}
+	})
+	return r
+}
+
+func propRenderHistory(t *rapid.T) {
+	ev.Case()
+	r := buildRenderRouter()
+	n := rapid.IntRange(2, 8).Draw(t, "nreq")
+	var hist []string
+	failed := false
+	for i := 0; i < n; i++ {
+		p := "/view/" + rapid.SampledFrom([]string{"home", "about", "bad1", "bad2", "list"}).Draw(t, "view") + "?d=" + rapid.StringMatching(`[a-z]{0,3}`).Draw(t, "data")
+		hist = append(hist, p)
+		ev.Eval()
+		got, want := httptest.NewRecorder(), httptest.NewRecorder()
+		r.ServeHTTP(got, httptest.NewRequest("GET", p, nil))
+		buildRenderRouter().ServeHTTP(want, httptest.NewRequest("GET", p, nil))
+		if got.Code != want.Code || got.Body.String() != want.Body.String() {
+			t.Fatalf("history %v: request %d (GET %s) answers %d %q, as first request on a fresh router %d %q", hist, i, p, got.Code, got.Body.String(), want.Code, want.Body.String())
+		}
+		if failed && !strings.Contains(p, "bad") {
+			ev.Class("page-rendered-after-a-failed-render")
+			ev.NonTrivial(fmt.Sprint(hist), func() string { return fmt.Sprint(hist) })
+		}
+		if strings.Contains(p, "bad") {
+			failed = true
+		}
+	}
+}
+
+func TestPropRenderHistory(t *testing.T) { rapid.Check(t, propRenderHistory) }
